@@ -125,6 +125,9 @@ Do(i, o) ==
   /\ insts[i].alive /\ insts[i].sure          \* an instance that exists only by latitude is not operated (the real one may not exist)
   /\ CASE o.op = "gset"  -> g' = o.x /\ UNCHANGED <<pages, cells, tab>> /\ Ret(i, o, "void", pages, cells, o.x, tab)
        [] o.op = "gget"  -> UNCHANGED <<pages, cells, g, tab>> /\ Ret(i, o, g, pages, cells, g, tab)
+       [] o.op = "galias" -> \* a consumer imports g TWICE; in one function: read through the second import, write x through the
+                             \* first, read through the second again: the second read sees the write (one global, two indexes)
+                             insts[i].kind = "B" /\ g' = o.x /\ UNCHANGED <<pages, cells, tab>> /\ Ret(i, o, g * 1000 + o.x, pages, cells, o.x, tab)
        [] o.op = "kget"  -> insts[i].kind = "B" /\ UNCHANGED <<pages, cells, g, tab>> /\ Ret(i, o, insts[i].k, pages, cells, g, tab)
        [] o.op = "st"    -> /\ cells' = [cells EXCEPT ![o.x] = o.y] /\ UNCHANGED <<pages, g, tab>>
                             /\ Ret(i, o, "void", pages, [cells EXCEPT ![o.x] = o.y], g, tab)
